@@ -111,6 +111,53 @@ pub fn exercise(bytes: &[u8], r: &mut Report, rp: &dyn Fn() -> Json, label: &str
         }
         r.count("parse_words_runs", 1);
     }
+    // 2b. a well-behaved consumer may itself parse or load (a linking consumer): nested parses started from
+    //     inside the header / first-instruction callbacks
+    if b.len() <= 8192 && (b.len() / 4 + b.first().copied().unwrap_or(0) as usize) % 4 == 0 {
+        struct Nesting<'a> {
+            bytes: &'a [u8],
+            depth_left: u32,
+            inner_insts: usize,
+        }
+        impl<'a> rspirv::binary::Consumer for Nesting<'a> {
+            fn initialize(&mut self) -> rspirv::binary::ParseAction {
+                rspirv::binary::ParseAction::Continue
+            }
+            fn finalize(&mut self) -> rspirv::binary::ParseAction {
+                rspirv::binary::ParseAction::Continue
+            }
+            fn consume_header(&mut self, _h: rspirv::dr::ModuleHeader) -> rspirv::binary::ParseAction {
+                if self.depth_left > 0 {
+                    let mut inner = Nesting { bytes: self.bytes, depth_left: self.depth_left - 1, inner_insts: 0 };
+                    let _ = rspirv::binary::parse_bytes(self.bytes, &mut inner);
+                    let _ = rspirv::dr::load_bytes(self.bytes);
+                }
+                rspirv::binary::ParseAction::Continue
+            }
+            fn consume_instruction(&mut self, _i: rspirv::dr::Instruction) -> rspirv::binary::ParseAction {
+                self.inner_insts += 1;
+                if self.inner_insts == 1 && self.depth_left > 0 {
+                    let mut inner = crate::rs::RecConsumer::default();
+                    let _ = rspirv::binary::parse_bytes(self.bytes, &mut inner);
+                }
+                rspirv::binary::ParseAction::Continue
+            }
+        }
+        let mut outer = Nesting { bytes: b, depth_left: 2, inner_insts: 0 };
+        match catch(|| rspirv::binary::parse_bytes(b, &mut outer).is_ok()) {
+            Err(p) => {
+                report(r, "nested parse_bytes", &p);
+                return false;
+            }
+            Ok(ok3) => {
+                if ok3 != parsed_ok || outer.inner_insts != rec.insts.len() {
+                    r.violation("C04:nested-parse-differs".to_string(), format!("a parse whose consumer parses the same data inside its callbacks ends differently ({})", label), rp().set("binary", hex_bytes(b)));
+                    return false;
+                }
+            }
+        }
+        r.count("nested_parse_runs", 1);
+    }
     if miri {
         return true;
     }
@@ -192,7 +239,7 @@ pub fn directed_inputs() -> Vec<(String, Vec<u8>)> {
 }
 
 pub fn run(cfg: &Cfg, rep: &mut Report) {
-    rep.rule = "every input is run through parse_bytes (recording consumer, H1 step budget 16*words+256 as the termination verdict, H2 decoder events checked for offsets beyond the buffer), parse_words (word-aligned inputs, exact-size boxed slices), load_bytes and, for accepted modules, assemble + disassemble, each under catch_unwind: well-formed modules of every opcode, 16 structured mutators, pure noise of lengths 0..4096, all sequences of up to 3 'interesting' words after a header, directed inputs (word counts past the end before strings, every opcode as OpSpecConstantOp payload, constants of undeclared/non-numeric/unsupported types), decoder request scripts with limits up to usize::MAX. distinct_nontrivial = distinct (input class, outcome) pairs".into();
+    rep.rule = "every input is run through parse_bytes (recording consumer, H1 step budget 16*words+256 as the termination verdict, H2 decoder events checked for offsets beyond the buffer), parse_words (word-aligned inputs, exact-size boxed slices), a consumer that parses and loads the same data inside its own callbacks (nested, depth 2), load_bytes and, for accepted modules, assemble + disassemble, each under catch_unwind: well-formed modules of every opcode, 16 structured mutators, pure noise of lengths 0..4096, all sequences of up to 3 'interesting' words after a header, directed inputs (word counts past the end before strings, every opcode as OpSpecConstantOp payload, constants of undeclared/non-numeric/unsupported types), decoder request scripts with limits up to usize::MAX. distinct_nontrivial = distinct (input class, outcome) pairs".into();
     let miri = cfg.mode == "miri";
     if miri {
         // Miri stage: inputs come from the corpus file written by the debug stage, so that the (slow,
